@@ -165,6 +165,15 @@ type Plain struct {
 	X int64
 	Y *string
 }
+
+// Team is a BY-VALUE object holding a slice: its Go source value is not
+// comparable, so the executor cannot use it as part of a reactive cache key.
+type Team struct {
+	Id      int64 `graphql:"id,key"`
+	Members []string
+	w       *World
+	tag     string
+}
 type KA struct {
 	Id int64 `graphql:"id,key"`
 	A  int64
@@ -205,6 +214,13 @@ func OracleCtx(ctx context.Context) context.Context {
 func isOracle(ctx context.Context) bool { return ctx.Value(oracleKey{}) != nil }
 
 const NumItems = 8
+
+// NumTeams is the number of team cells, NumVCells the number of cells
+// selectable through the vcell(k:) argument.
+const (
+	NumTeams  = 4
+	NumVCells = 3
+)
 
 // World is the mutable in-memory store plus the schema over it.
 type World struct {
@@ -473,6 +489,24 @@ func (w *World) buildSchema() *graphql.Schema {
 		}
 		return w.item(v.tag, id)
 	})
+	// teams: a list of by-value structs (non-comparable sources) with an
+	// Expensive field whose result differs per element
+	v.FieldFunc("teams", func(ctx context.Context, v *View) []Team {
+		ids := w.read(ctx, v.tag, "teams").([]int64)
+		out := make([]Team, 0, len(ids))
+		for _, id := range ids {
+			out = append(out, Team{Id: id, Members: []string{fmt.Sprintf("m%d", id), "x"}, w: w, tag: v.tag})
+		}
+		return out
+	})
+	// vcell: which cell is read depends on an argument (given by variable)
+	v.FieldFunc("vcell", func(ctx context.Context, v *View, args struct{ K int64 }) int64 {
+		k := args.K % NumVCells
+		if k < 0 {
+			k = -k
+		}
+		return w.read(ctx, v.tag, fmt.Sprintf("v:%d", k)).(int64)
+	})
 	v.FieldFunc("plain", func(ctx context.Context, v *View) []*Plain {
 		ps := w.read(ctx, v.tag, "plain").([]PlainVal)
 		out := make([]*Plain, 0, len(ps))
@@ -583,6 +617,10 @@ func (w *World) buildSchema() *graphql.Schema {
 	it.FieldFunc("cost", func(ctx context.Context, i *Item) int64 {
 		return i.w.read(ctx, i.tag, fmt.Sprintf("item:%d", i.Id)).(ItemVal).W
 	}, schemabuilder.Expensive)
+	tm := sb.Object("Team", Team{})
+	tm.FieldFunc("size", func(ctx context.Context, t Team) int64 {
+		return t.w.read(ctx, t.tag, fmt.Sprintf("team:%d", t.Id)).(int64)
+	}, schemabuilder.Expensive)
 	sb.Object("Obj", Obj{})
 	sb.Object("Inner", Inner{})
 	sb.Object("Plain", Plain{})
@@ -595,8 +633,8 @@ func (w *World) buildSchema() *graphql.Schema {
 
 // Expected runs query against the current data with thunder's own executor,
 // outside any rerunner, and returns the JSON form of the result.
-func (w *World) Expected(query string) (interface{}, error) {
-	q, err := graphql.Parse(query, nil)
+func (w *World) Expected(query string, vars map[string]interface{}) (interface{}, error) {
+	q, err := graphql.Parse(query, vars)
 	if err != nil {
 		return nil, err
 	}
